@@ -14,23 +14,23 @@ class Inconclusive(Exception): pass
 class Native:
     """client of the replay binary (built against /repo's working tree on every run)"""
     built = {}
-    def __init__(self, profile='dev'):
+    def __init__(self, profile='dev', features=''):
         self.profile = profile
-        self.bin = self.build(profile)
+        self.bin = self.build(profile, features)
         self.p = subprocess.Popen([self.bin], stdin=subprocess.PIPE, stdout=subprocess.PIPE, stderr=subprocess.DEVNULL, text=True, bufsize=1)
         self.calls = 0
 
     @classmethod
-    def build(cls, profile):
-        if profile in cls.built: return cls.built[profile]
-        tdir = os.path.join(CACHE, 'replay-target')
+    def build(cls, profile, features=''):
+        if (profile, features) in cls.built: return cls.built[(profile, features)]
+        tdir = os.path.join(CACHE, 'replay-target' + ('-' + features.replace(',', '-') if features else ''))
         os.makedirs(tdir, exist_ok=True)
         lock = open(os.path.join(CACHE, '.replay.lock'), 'w')
         fcntl.flock(lock, fcntl.LOCK_EX)
         try:
             env = dict(os.environ, CARGO_NET_OFFLINE='true', CARGO_TARGET_DIR=tdir)
             env.pop('RUSTFLAGS', None)
-            cmd = ['cargo', 'build', '--offline', '--quiet'] + (['--release'] if profile == 'release' else [])
+            cmd = ['cargo', 'build', '--offline', '--quiet'] + (['--release'] if profile == 'release' else []) + (['--features', features] if features else [])
             r = subprocess.run(cmd, cwd=os.path.join(VERIF, 'replay'), env=env, stdout=subprocess.PIPE, stderr=subprocess.PIPE, text=True)
             if r.returncode != 0:
                 sys.stderr.write(r.stderr[-3000:])
@@ -38,7 +38,7 @@ class Native:
         finally:
             fcntl.flock(lock, fcntl.LOCK_UN); lock.close()
         b = os.path.join(tdir, 'release' if profile == 'release' else 'debug', 'sqv-replay')
-        cls.built[profile] = b
+        cls.built[(profile, features)] = b
         return b
 
     def ask(self, req):
